@@ -3,7 +3,8 @@
 Spec: spec/Expr.tla (+ Bytes.tla); trace spec: spec/trace/ExprTrace.tla.
 
 G: every finished state of the Expr writer/reader machine is one case: a context (address size, offset
-size = DWARF format, byte order), the bytes Enc(expr) and the declarative view Present(Annot(expr)) =
+size = DWARF format, byte order, version given to the parser: 2..5, or 0 = none given = constructor
+default), the bytes Enc(expr) and the declarative view Present(Annot(expr)) =
 list of (opcode, name, operand values, offset), nested for entry-value blocks.  The driver hands the
 bytes to DWARFExprParser(structs).parse_expr and compares field by field, recursively.  The name table
 of the spec (emitted once) is compared with DW_OP_name2opcode / DW_OP_opcode2name (one-to-one clause).
@@ -23,7 +24,8 @@ from . import core
 
 LEVEL = 'model_checking'
 
-VERSIONS = (3, 4, 5)          # DWARFStructs(dwarf_version=...): the expression grammar does not depend on it
+VERSIONS = (0, 2, 3, 4, 5)    # the spec's Versions; 0 = DWARFStructs built without dwarf_version (what DWARFInfo.structs,
+                              # i.e. every call-frame / location-list client, hands to DWARFExprParser)
 
 
 def _leb(g, signed):
@@ -112,8 +114,8 @@ class _Parsers:
         from elftools.dwarf.dwarf_expr import DWARFExprParser
         key = (asz, osz, le, ver)
         if fresh or key not in self.cache:
-            st = DWARFStructs(little_endian=bool(le), dwarf_format=32 if osz == 4 else 64, address_size=asz,
-                              dwarf_version=ver)
+            kw = {'dwarf_version': ver} if ver else {}
+            st = DWARFStructs(little_endian=bool(le), dwarf_format=32 if osz == 4 else 64, address_size=asz, **kw)
             p = DWARFExprParser(st)
             if fresh:
                 return p
@@ -168,15 +170,14 @@ def _check_names(run, tab):
 
 def _one(case, n, parsers, seen, out):
     """Replay one emitted case; results go to the accumulator `out` (a plain dict: it crosses processes)."""
-    asz, osz, le = case['c']
+    asz, osz, le, ver = case['c']
     data = bytes(case['b'] or [])
     if seen is not None:          # simulated cases may repeat; exhaustive states are distinct by construction
-        key = (asz, osz, le, data)
+        key = (asz, osz, le, ver, data)
         if key in seen:
             return
         seen.add(key)
     want = _want(case['x'])
-    ver = VERSIONS[n % 3]
     parser = parsers.get(asz, osz, le, ver)
     got = _parse(parser, data)
     out['n'] += 1
@@ -319,8 +320,8 @@ def replay(run, path):
             continue
         data = bytes(c['bytes']) if isinstance(c['bytes'], list) else base64.b64decode(c['bytes'])
         want = _unj(mm['expected'])
-        asz, osz, le = c['ctx']
-        for ver in VERSIONS:
+        asz, osz, le = c['ctx'][:3]
+        for ver in ([c['ctx'][3]] if len(c['ctx']) > 3 else (3, 4, 5)):
             got = _parse(parsers.get(asz, osz, le, ver), data)
             run.count('%r:%s:%d' % (c['ctx'], data.hex(), ver), nontrivial=bool(want))
             if isinstance(got, dict):
@@ -336,14 +337,16 @@ def replay(run, path):
 
 def check(run):
     quick = run.tier == 'quick'
-    run.rule = ('G: one case per finished state of spec/Expr.tla = (address size, offset size, byte order, bytes of an '
-                'abstract expression); non-trivial = the expression has at least one operation; distinct by (context, bytes): '
+    run.rule = ('G: one case per finished state of spec/Expr.tla = (address size, offset size, byte order, version given to '
+                'the parser or none, bytes of an abstract expression); non-trivial = the expression has at least one operation; distinct by (context, bytes): '
                 'exhaustive states are distinct (context, expression) pairs and Enc is injective (RoundTrip), simulated '
                 'cases are deduplicated. '
                 'T: one case per distinct (context, bytes) location expression recorded from corpus DIEs; non-trivial = '
                 'non-empty and inside the spec table. Name-table rows count as one case each.')
     run.assumptions += [
-        'contexts are DWARF >= 3 units (DW_OP_GNU_implicit_pointer in DWARF 2 units has an address-sized operand: not modelled)',
+        'DW_OP_call_ref / DW_OP_implicit_pointer / DW_OP_GNU_implicit_pointer are not asserted for version 2 with address size '
+        '!= offset size (DWARF 2 does not define them; producers size the reference by the address there, DWARF 3+ by the '
+        'format: Expr!Settled); asserted for versions 3-5 and for a parser that was given no version',
         'offsets of operations inside an entry-value block count from the start of that block',
         'LEB128 operands stay within 64 bits (<= 10 groups); block lengths < 2^28',
         'blocks are compared as sequences of ints whatever Python type carries them',
@@ -352,6 +355,11 @@ def check(run):
     # ---- G: exhaustive grid
     res = run.tlc('Expr', 'Expr_quick' if quick else 'Expr_thorough', timeout=3000)
     base = _replay_grid(run, res, stats, 0)
+    if not quick:
+        # second grid: operand classes and sequences in the 32 contexts the first one leaves out (it sweeps one
+        # version per sizes/order); the two grids have disjoint contexts, so their cases are distinct
+        res = run.tlc('Expr', 'Expr_versions', timeout=3000)
+        base = _replay_grid(run, res, stats, base)
     # ---- G: long random expressions (seeded by VERIF_SEED)
     res = run.tlc('Expr', 'Expr_sim' if quick else 'Expr_simlong', simulate=(40 if quick else 400),
                   depth=(900 if quick else 2500), workers=1, timeout=3000)
@@ -419,7 +427,7 @@ def _record(path, limit):
             st = cu.structs
             ver = cu['version']
             parser = DWARFExprParser(st)
-            ctx = [st.address_size, 4 if st.dwarf_format == 32 else 8, 1 if st.little_endian else 0]
+            ctx = [st.address_size, 4 if st.dwarf_format == 32 else 8, 1 if st.little_endian else 0, int(ver)]
 
             def add(data, where):
                 try:
@@ -497,7 +505,7 @@ def _trace(run, stats, quick):
             from elftools.dwarf.dwarf_expr import DWARFExprParser
             from elftools.dwarf.structs import DWARFStructs
             st = DWARFStructs(little_endian=bool(ev['c'][2]), dwarf_format=32 if ev['c'][1] == 4 else 64,
-                              address_size=ev['c'][0])
+                              address_size=ev['c'][0], dwarf_version=ev['c'][3])
             at = len(names)
             for i in range(len(names)):
                 end = offs[i + 1] if i + 1 < len(offs) else len(data)
@@ -511,7 +519,7 @@ def _trace(run, stats, quick):
         run.mismatch(clause, tag, {'file': fn, 'ctx': ev['c'], 'bytes': ev['b'][:80]},
                      'Canon(Dec(bytes)) of spec/trace/ExprTrace.tla', {'exc': exc} if exc else ev['ops'])
     for ev in events:
-        run.count('t%d%d%d:%s' % (ev['c'][0], ev['c'][1], ev['c'][2], bytes(ev['b']).hex()), nontrivial=bool(ev['b']))
+        run.count('t%d%d%d%d:%s' % (ev['c'][0], ev['c'][1], ev['c'][2], ev['c'][3], bytes(ev['b']).hex()), nontrivial=bool(ev['b']))
     run.validated += v['agree']
     stats['trace_agree'] = v['agree']
     stats['trace_outside_table'] = v['outside']
